@@ -55,9 +55,9 @@ def pinn_case(rng, cid):
             if forced:
                 j = [0, nout - 1, 0, 1, 0, 0][(cid + len(specs)) % 6]
                 return (j, j + 1), j, True
-            if rng.random() < 0.5:                       # an integer index (0 included) selects one component
-                j = rng.randrange(nout)
-                return (j, j + 1), j, True
+            if rng.random() < 0.5:                       # an integer index (0 included, negative ones counted from the end) selects one component
+                j = rng.randrange(-nout, nout)
+                return (j % nout, j % nout + 1), j, True
             lo = rng.randrange(nout - 1); hi = rng.randint(lo + 1, nout)
             return (lo, hi), jnp.s_[lo:hi], False
         specs = []
@@ -140,8 +140,22 @@ def hyper_case(rng, cid):
         kw["output_transform"] = lambda i, o, p: o + p.eq_params["a"] * i[0]
     # the designated parameters feed the hyper-network in the DECLARED order, whatever the order of the parameter dictionary
     hyper_order = rng.choice([["a", "b"], ["b", "a"]])
+    osl = None
+    if nout == 2 and rng.random() < 0.6:             # two networks sharing the outputs of one hyper-network-driven network
+        def one():
+            if rng.random() < 0.6:
+                j = rng.randrange(-nout, nout)
+                return (j % nout, j % nout + 1), j
+            lo = rng.randrange(nout - 1); hi = rng.randint(lo + 1, nout)
+            return (lo, hi), jnp.s_[lo:hi]
+        specs = [one(), one()]
+        which = rng.randrange(2)
+        osl = specs[which][0]
+        kw["shared_pinn_outputs"] = (specs[0][1], specs[1][1])
     u = jinns.utils.create_HYPERPINN(jax.random.PRNGKey(rng.randrange(1 << 30)), eqx_list, eq_type, hyperparams=hyper_order, hypernet_input_size=2,
                                      dim_x=dim_x, eqx_list_hyper=eqx_list_hyper, **kw)
+    if isinstance(u, list):
+        u = u[which]
     eqp = [dy(rng, 1, 3), dy(rng)]
     eqd = {"a": jnp.array(eqp[0]), "b": jnp.array(eqp[1])}
     if rng.random() < 0.5:
@@ -154,9 +168,14 @@ def hyper_case(rng, cid):
     hl = export_layers(u.init_params().layers, u.static_hyper.layers)
     shapes = [(h, nin), (nout, h)]
     acts = [with_act, False]
+    sl = f"(Some ({cnat(osl[0])}, {cnat(osl[1])}))" if osl else "None"
     term = (f"Hyper {cnat(cid)} {clist(hl, clay)} {clist(hyper_in, cq)} {cq(eqp[0])} {clist(shapes, lambda s: f'({cnat(s[0])}, {cnat(s[1])})')} {clist(acts, cbool)} {cbool(use_tin)} {cbool(use_tout)} "
-            f"{clist(inputs, cq)} {clist(np.asarray(out).ravel().tolist(), cq)}")
-    return term, dict(what="hyper", eq_type=eq_type, nout=nout, with_act=with_act, use_tin=use_tin, use_tout=use_tout, hyperparams=hyper_order, jit=use_jit), []
+            f"{sl} {clist(inputs, cq)} {clist(np.asarray(out).ravel().tolist(), cq)}")
+    fails = []
+    want_shape = ((osl[1] - osl[0]) if osl else nout,)
+    if tuple(out.shape) != want_shape:
+        fails.append(f"the hyper-network wrapper returned shape {tuple(out.shape)}, its output slice has {want_shape[0]} component(s)")
+    return term, dict(what="hyper", eq_type=eq_type, nout=nout, with_act=with_act, use_tin=use_tin, use_tout=use_tout, hyperparams=hyper_order, jit=use_jit, oslice=osl), fails
 
 
 def generate(tier, seed, casedir, variant):
@@ -183,7 +202,7 @@ def generate(tier, seed, casedir, variant):
             cid += 1
     write_cases(casedir, "C10", "R_C10", variant, cases, chunk=60)
     return dict(meta=meta, oracle_violations=viol, evaluations=len(cases), distinct_nontrivial=len(cases), samples=samples, distribution=dist,
-                rule="random architectures: create_PINN (ODE / stationary / non-stationary, input / output transforms reading an equation parameter, shared outputs given as slices or integer indices (0 included; either of the two networks is evaluated), bare network parameters, scalar or (1,) time), create_SPINN (d = 1..3, embedding size 1..3, 1..2 outputs, 1..3 batch points, four grid indices each), create_HYPERPINN (two designated parameters, inner network with or without activation, input / output transforms reading the inputs and an equation parameter); weights exported as exact rationals; every case is non-trivial and distinct (fresh random weights)",
+                rule="random architectures: create_PINN (ODE / stationary / non-stationary, input / output transforms reading an equation parameter, shared outputs given as slices or integer indices (0 and negative ones included; either of the two networks is evaluated), bare network parameters, scalar or (1,) time), create_SPINN (d = 1..3, embedding size 1..3, 1..2 outputs, 1..3 batch points, four grid indices each), create_HYPERPINN (two designated parameters, shared outputs, inner network with or without activation, input / output transforms reading the inputs and an equation parameter); weights exported as exact rationals; every case is non-trivial and distinct (fresh random weights)",
                 oracle_checks=len(cases))
 
 
